@@ -1,13 +1,18 @@
 #!/usr/bin/env python3
 """Run registered checks against a candidate change: apply the patch to /repo, run ./check for the given
 properties (quick tier unless --tier), print which ones raise a VIOLATION, and ALWAYS restore /repo.
-usage: tools/trial.py <patch.diff> [--tier quick] C01 C08 ...   (no property list = all 20)"""
+usage: tools/trial.py <patch.diff> [--tier quick] [--repo <scratch worktree>] C01 C08 ...   (no property list = all 20)
+--repo: apply to and check a scratch worktree instead of /repo (RAWR_REPO), e.g. while something else reads /repo."""
 import json, os, subprocess, sys, time
 VERIF = os.path.dirname(os.path.dirname(os.path.abspath(__file__)))
 REPO = "/repo"
 def main():
+    global REPO
     args = sys.argv[1:]
     tier = "quick"
+    if "--repo" in args:
+        i = args.index("--repo"); REPO = os.path.abspath(args[i + 1]); del args[i:i + 2]
+    env = dict(os.environ, RAWR_REPO=REPO)
     if "--tier" in args:
         i = args.index("--tier"); tier = args[i + 1]; del args[i:i + 2]
     patch = os.path.abspath(args[0])
@@ -28,7 +33,7 @@ def main():
     try:
         for p in props:
             t0 = time.time()
-            q = subprocess.run([os.path.join(VERIF, "check"), p, "--tier", tier], cwd=VERIF, capture_output=True, text=True, timeout=7200)
+            q = subprocess.run([os.path.join(VERIF, "check"), p, "--tier", tier], cwd=VERIF, capture_output=True, text=True, timeout=7200, env=env)
             lines = [l for l in q.stdout.splitlines() if l.startswith(("VIOLATION", "KNOWN-FINDING", "CHECK-ERROR"))]
             out[p] = {"rc": q.returncode, "lines": lines, "secs": round(time.time() - t0, 1)}
             print(p, q.returncode, "; ".join(l[:160] for l in lines), flush=True)
@@ -41,8 +46,8 @@ def main():
             shutil.copytree(os.path.join(keep, "evidence"), evd)
         shutil.rmtree(keep, ignore_errors=True)
         # put the translated files back in step with the restored sources
-        subprocess.run([sys.executable, os.path.join(VERIF, "tools", "rust2lean.py")], capture_output=True)
-        subprocess.run([sys.executable, os.path.join(VERIF, "tools", "rust2lean_imp.py")], capture_output=True)
+        subprocess.run([sys.executable, os.path.join(VERIF, "tools", "rust2lean.py")], capture_output=True, env=env)
+        subprocess.run([sys.executable, os.path.join(VERIF, "tools", "rust2lean_imp.py")], capture_output=True, env=env)
     print(json.dumps({"patch": patch, "tier": tier, "caught_by": [p for p, v in out.items() if v["rc"] == 1], "results": out}))
     return 0
 if __name__ == "__main__":
